@@ -7,7 +7,7 @@
 import BorshModel.Lemmas.ScriptRead
 namespace Borsh
 
-theorem foldl_min_le (pos : Nat) : ∀ (xs : List Nat) (m : Nat),
+theorem rdFoldlMin_le (pos : Nat) : ∀ (xs : List Nat) (m : Nat),
     xs.foldl (fun m x => min m (x - pos)) m ≤ m := by
   intro xs
   induction xs with
@@ -17,7 +17,7 @@ theorem foldl_min_le (pos : Nat) : ∀ (xs : List Nat) (m : Nat),
     simp only [List.foldl_cons]
     exact Nat.le_trans (ih _) (Nat.min_le_left _ _)
 
-theorem foldl_min_pos (pos : Nat) : ∀ (xs : List Nat) (m : Nat), 0 < m → (∀ x ∈ xs, pos < x) →
+theorem rdFoldlMin_pos (pos : Nat) : ∀ (xs : List Nat) (m : Nat), 0 < m → (∀ x ∈ xs, pos < x) →
     0 < xs.foldl (fun m x => min m (x - pos)) m := by
   intro xs
   induction xs with
@@ -37,7 +37,7 @@ theorem eventCap_stop (sc : Script) (intr : List (Nat × Nat)) (pos o : Nat) (st
   simp only [hs, List.cons_append, List.nil_append]
   have hd : decide (o > pos) = true := by simpa using hlt
   simp only [List.filter_cons, hd, if_true]
-  refine ⟨foldl_min_pos pos _ _ (by omega) ?_, foldl_min_le pos _ _⟩
+  refine ⟨rdFoldlMin_pos pos _ _ (by omega) ?_, rdFoldlMin_le pos _ _⟩
   intro x hx
   have := (List.mem_filter.mp hx).2
   simpa using this
